@@ -76,6 +76,17 @@ Definition run_c12_multi (inp : sx) : sx :=
   | Panic c => SL [SZ 2; SZ c]
   end.
 
+(* same-node programs: input (10 variant (pre exprs...) ((k n (arg exprs...) expr cons pv) ...)) *)
+Definition call_of_sx (s : sx) : citem :=
+  mkCall (kind_of_Z (getZ (nthx 0 s))) (getZ (nthx 1 s)) (map (expr_of_sx 64) (getL (nthx 2 s)))
+         (expr_of_sx 64 (nthx 3 s)) (getZ (nthx 4 s)) (getZ (nthx 5 s)).
+Definition run_c12_calls (inp : sx) : sx :=
+  match run_calls (map (expr_of_sx 64) (getL (nthx 2 inp))) (map call_of_sx (getL (nthx 3 inp))) with
+  | Ok (names, outs) => SL [SZ 0; ofLZ (if getZ (nthx 1 inp) =? 0 then names else []); ofLZ outs]
+  | Err c => SL [SZ 1; SZ c]
+  | Panic c => SL [SZ 2; SZ c]
+  end.
+
 Definition run_c12_single (inp : sx) : sx :=
   let rk := kind_of_Z (getZ (nthx 0 inp)) in
   let rn := getZ (nthx 1 inp) in
@@ -88,4 +99,6 @@ Definition run_c12_single (inp : sx) : sx :=
   end.
 
 Definition run_c12 (inp : sx) : sx :=
-  if getZ (nthx 0 inp) =? 9 then run_c12_multi inp else run_c12_single inp.
+  if getZ (nthx 0 inp) =? 9 then run_c12_multi inp
+  else if getZ (nthx 0 inp) =? 10 then run_c12_calls inp
+  else run_c12_single inp.
